@@ -434,6 +434,8 @@ class Runner:
         for fn in os.listdir(self.prod_dir):
             os.remove(os.path.join(self.prod_dir, fn))
         env = [dict(e) for e in sched if e["a"] in ("notify", "output", "extkill")]
+        checks = [e["s"] for e in sched if e["a"] == "check"]
+        self.nchecks = 0
         durs = [e["s"] for e in sched if e["a"] == "task"]
         rcs = [("ok", "fail", "rexh", "killed")[e["s"]] for e in sched if e["a"] == "rc"]
         late = []
@@ -452,6 +454,27 @@ class Runner:
             return t
 
         engine = self.engine = eng.RepeatingEngine(job, task_generator)
+        # transient filesystem fault: while the k-th canConsume() check lists the (output-less) producer directory the
+        # directory is not there (as with a stale handle): the REAL os.listdir raises OSError inside WorkingDirectory._listdir
+        wd = prod.workingDirectory
+        real_listdir = wd._listdir
+        fault_mode = cfg["mode"] in ("plainProducer", "noCheck")
+
+        def listdir(directory):
+            if not fault_mode or os.path.realpath(directory) != os.path.realpath(runner.prod_dir):
+                return real_listdir(directory)
+            i = runner.nchecks
+            runner.nchecks += 1
+            if i < len(checks) and checks[i] and not os.listdir(directory):
+                away = directory.rstrip("/") + ".away"
+                os.rename(directory, away)
+                runner.log("fault", 2 * int(W.now), blk="running", wake=int(W.now))
+                try:
+                    return real_listdir(directory)
+                finally:
+                    os.rename(away, directory)
+            return real_listdir(directory)
+        wd._listdir = listdir
         real_check = job.producersHaveOutputSinceDate
 
         def check_then_window(date):
@@ -543,6 +566,10 @@ class Runner:
         finally:
             try:
                 del job.producersHaveOutputSinceDate
+            except AttributeError:
+                pass
+            try:
+                del wd._listdir
             except AttributeError:
                 pass
             W.stop_thread()
